@@ -564,6 +564,8 @@ def nesting_check(chk, ctx, byname, group, a, b, args, rng, reps=1):
     if ma is None or mb is None:
         chk.broken.append('model: nesting pair %s -> %s names a model that does not exist' % (a, b)); return
     d = model_dim(mb)
+    if d is None or model_dim(ma) is None:
+        chk.stat('nesting:skipped(model does not run)'); return           # reported by the per-model run
     for _ in range(reps):
         pb = draw(rng, mb['pn'], edge=False)
         pb, lam = fit_budget(mb, pb, d, ctx['tier'], scale=0.35)
@@ -634,6 +636,8 @@ def swap_check(chk, ctx, byname, name, args, rng, draws=3):
     dadi = ctx['dadi']; m = byname.get(name)
     if m is None:
         chk.broken.append('model: symmetric model %s does not exist' % name); return
+    if model_dim(m) != 2:
+        chk.stat('swap:skipped(model does not run as a two-population model)'); return
     ratios = []; inputs = []
     cls = None
     for _ in range(draws):
@@ -688,8 +692,44 @@ def extrap_check(chk, ctx, m, p, ns):
                  case_input('extrap', m, p, ns, list(PTS)))
 
 # ----------------------------------------------------------------------------------------------- run / replay
+def generated_is_current():
+    """other checks running at the same time may regenerate Generated/Models.lean from another tree: results would be
+    meaningless, so this is reported as an infrastructure failure"""
+    import os, sys
+    try:
+        import translate as T
+        gen = T.GENERATORS.get('Models')
+        text = gen() if gen else None
+    except Exception:
+        return True                       # a translation failure is reported through chk.translate
+    path = os.path.join(common.LEAN, 'DadiVerif', 'Generated', 'Models.lean')
+    return text is None or open(path).read() == text
+
+def ensure_current(chk, ctx):
+    """tools/try_seed.sh (and any full `tools/translate.py` run) of a concurrent job rewrites every Generated/*.lean from its own
+    tree.  If that happened between this check's translation step and now, redo translation, audit and driver build."""
+    import translate as T
+    for attempt in range(4):
+        if generated_is_current(): return
+        chk.notes.append('Generated/Models.lean was rewritten by a concurrent job; regenerated (attempt %d)' % (attempt + 1))
+        chk.translate = T.write_all(GENERATED)
+        try:
+            chk.audit = common.audit(PROP, EXTRA_MODULES, ctx['tier'])
+        except TypeError:
+            chk.audit = common.audit(PROP, EXTRA_MODULES)
+        if ctx.get('driver') is not None:
+            ctx['driver'].close()
+        ctx['driver'] = common.LeanDriver(DRIVER_MODULES)
+        ctx['_own_driver'] = ctx['driver']
+        chk.broken[:] = [b for b in chk.broken if not b.startswith('model: lake build of the driver')]
+        if not ctx['driver'].build_ok:
+            chk.broken.append('model: lake build of the driver modules failed (driver unavailable)')
+    if not generated_is_current():
+        raise common.Infra('lean/DadiVerif/Generated/Models.lean keeps being rewritten by concurrent jobs (tree %s)' % common.REPO)
+
 def setup(chk, ctx):
     dadi = ctx['dadi']
+    ensure_current(chk, ctx)
     for _, modname in MODULES: importlib.import_module(modname)
     models = discover(dadi)
     byname = {m['name']: m for m in models}
@@ -701,8 +741,15 @@ def setup(chk, ctx):
     return models, byname
 
 def run(chk, ctx):
-    rng = common.Rng(ctx['seed'], 'C15'); tier = ctx['tier']; dadi = ctx['dadi']; driver = ctx['driver']
+    try:
+        _run(chk, ctx)
+    finally:
+        if ctx.get('_own_driver') is not None: ctx['_own_driver'].close()
+
+def _run(chk, ctx):
+    rng = common.Rng(ctx['seed'], 'C15'); tier = ctx['tier']; dadi = ctx['dadi']
     models, byname = setup(chk, ctx)
+    driver = ctx['driver']
     chk.rule = ('every function exposing __param_names__ in the six model modules (found by run-time introspection) is run at parameters '
                 'drawn inside the documented bounds by parameter name (nu*: log-uniform [1e-2,100] + the bounds and 1; T*: uniform [0,3] + 0 and 3; '
                 'm*: 0 / small / uniform [0,10] / 10, in half of the draws reduced to m*max(1, largest size) <= 8; s, f, F: uniform (0.02,0.98); gamma*: 0 or uniform with |gamma|*max(1, largest size) <= 3); non-negativity (entries >= -1e-3 of the largest entry: numerically-zero entries come out as -1e-5..-1e-4) is judged only in the regime the grids 16..24 resolve (m*nu <= 8, |gamma|*nu <= 3), everything else on every draw; the epoch lengths are then shrunk '
@@ -776,6 +823,12 @@ def run(chk, ctx):
         chk.notes.append('driver unavailable: nesting pairs / symmetric models not evaluated')
 
 def replay(chk, ctx, data):
+    try:
+        _replay(chk, ctx, data)
+    finally:
+        if ctx.get('_own_driver') is not None: ctx['_own_driver'].close()
+
+def _replay(chk, ctx, data):
     rng = common.Rng(ctx['seed'], 'C15')
     models, byname = setup(chk, ctx)
     inp = data.get('input') or {}
@@ -796,7 +849,7 @@ def replay(chk, ctx, data):
     elif k == 'swap' and inp.get('model') in byname:
         swap_check(chk, ctx, byname, inp['model'], inp['args'], rng)
     else:
-        run(chk, ctx)
+        _run(chk, ctx)
 
 def nesting_replay(chk, ctx, ma, mb, inp):
     pb = inp['params_b']; ns = tuple(inp['ns']); pts = inp['pts']; a, b = inp['a'], inp['b']
